@@ -169,7 +169,7 @@ def run_history(hexdata, actions=None, seed=None, length=0, observe_all=False):
     mirror = list(p)
     rng = random.Random(seed) if actions is None else None
     created, steps, bad, explicit = [], [], [], []
-    state = {"tainted": False, "known": False, "outside": False}
+    state = {"tainted": False, "known": False, "outside": False, "cyclic": False}
 
     def do_read(name):
         real = cachelib.view(p, name)
@@ -191,6 +191,8 @@ def run_history(hexdata, actions=None, seed=None, length=0, observe_all=False):
                             "fresh_Pickled(list(p))": ref[:300]})
         if name in cachelib.PROPS_VIEWS and real.startswith("ERR"):
             state["tainted"] = True
+        if ref == "ERR RecursionError":
+            state["cyclic"] = True
         steps.append({"m": ["read", name], "real": "ans:" + real + " ids=" + pool.ids(p), "read": name,
                       "known": known_here or (state["tainted"] and name in cachelib.PROPS_VIEWS)})
 
@@ -340,7 +342,7 @@ def run_history(hexdata, actions=None, seed=None, length=0, observe_all=False):
             do_read(name)
     line = None
     init = [pool.sexp(k) for k in init_ids]
-    cyclic = any(s["real"].startswith("ans:ERR RecursionError") for s in steps)
+    cyclic = state["cyclic"] or any(s["real"].startswith("ans:ERR RecursionError") for s in steps)
     if all(s is not None for s in init) and not state["outside"] and not cyclic:
         stds, reprs = pool.tables()
         line = sx(["cache_run", init, [s["m"] for s in steps], stds, reprs, "id"])
@@ -461,7 +463,11 @@ def main(tier, seed):
             lines.append(r["line"])
             idx.append(i)
     t1 = time.time()
-    out = Driver().query(lines) if built else []
+    try:
+        out = Driver().query(lines, timeout=600 if tier == "quick" else 2400) if built else []
+    except Exception as e:          # a model that does not answer is a broken correspondence, not a crash
+        chk.oblige("the extracted model answers every history", False, f"{type(e).__name__}: {str(e)[:300]}")
+        out, idx = [], []
     chk.stats["model-side-seconds"] = round(time.time() - t1, 1)
     chk.stats["cyclic-ast-histories(not sent to the model)"] = sum(1 for r in results if r and r.get("cyclic"))
     mism, bad_free, skipped, refused, known_hits, outside = [], [], {}, 0, 0, 0
